@@ -200,8 +200,11 @@ def check_obj(obj, label: str, problems: List[Dict[str, Any]], counters: Dict[st
         if bytes(cp2) != want:
             problems.append({"kind": "copy-shares-storage", "what": label + " (source mutated)"})
     if is_msg:
-      for hcls in (get_header_cls(), get_header_cls(True)):
+      for hcls, stamp, hprof in ((get_header_cls(), None, "plain"), (get_header_cls(True), (1700000000, 4242), "timecode"), (get_header_cls(True), (0, 4242), "timecode-unstamped"),
+                                 (get_header_cls(True), (0, 0), "timecode-zero"), (get_header_cls(), None, "plain-edges"), (get_header_cls(True), (2 ** 32 - 1, 2 ** 32 - 1), "timecode-edges")):
         tc = hcls is not get_header_cls()
+        if hprof not in ("plain", "timecode") and "=" in label:
+            continue  # the four extra header profiles go with the whole-object value profiles, not with every single-field object
         for ver, ok in ((0, True), (obj.type_hash, True), (obj.type_hash ^ 1, False), (0xFFFFFFFF if obj.type_hash != 0xFFFFFFFF else 1, False)):
               h = hcls()
               h.msg_type = obj.type_id
@@ -212,9 +215,16 @@ def check_obj(obj, label: str, problems: List[Dict[str, Any]], counters: Dict[st
               h.dest_mod_id = 3
               h.num_data_bytes = ctypes.sizeof(obj)
               h.version = ver
+              if hprof.endswith("edges"):
+                  h.msg_count = -2 ** 31
+                  h.send_time = -0.0
+                  h.recv_time = float("nan")
+                  h.src_host_id = 32767
+                  h.dest_host_id = -32768
+                  h.src_mod_id = -32768
+                  h.dest_mod_id = 32767
               if tc:
-                  h.utc_seconds = 1700000000
-                  h.utc_fraction = 4242
+                  h.utc_seconds, h.utc_fraction = stamp
               m = Message(h, obj)
               for minify in (False, True):
                   counters["message_roundtrips"] = counters.get("message_roundtrips", 0) + 1
@@ -224,7 +234,7 @@ def check_obj(obj, label: str, problems: List[Dict[str, Any]], counters: Dict[st
                           problems.append({"kind": "foreign-version-accepted", "what": label, "version": hex(ver)})
                           continue
                       if bytes(m2.data) != want or bytes(m2.header) != bytes(h):
-                          problems.append({"kind": "message-roundtrip-differs", "what": label, "minify": minify, "header": "timecode" if tc else "plain"})
+                          problems.append({"kind": "message-roundtrip-differs", "what": label, "minify": minify, "header": hprof})
                   except InvalidMessageDefinition:
                       if ok:
                           problems.append({"kind": "own-version-refused", "what": label, "version": hex(ver)})
@@ -233,7 +243,7 @@ def check_obj(obj, label: str, problems: List[Dict[str, Any]], counters: Dict[st
               try:
                   mc = Message.copy(m)
                   if bytes(mc.data) != want or bytes(mc.header) != bytes(h) or mc.data is m.data:
-                      problems.append({"kind": "message-copy-differs", "what": label, "header": "timecode" if tc else "plain"})
+                      problems.append({"kind": "message-copy-differs", "what": label, "header": hprof})
               except Exception as e:
                   problems.append({"kind": "message-copy-raised", "what": label, "exc": f"{type(e).__name__}: {str(e)[:100]}"})
 
